@@ -326,5 +326,6 @@ int main(int argc, char** argv) {
   S.push_back({"W3_shared_pool_by_reference", 48, 800, w3});
   S.push_back({"W3b_shared_pool_handle_copies", 16, 200, w3b});
 #endif
+  vf::args().case_timeout = 40;  // a team run takes well under a second; stuck threads are a finding, not a wait
   return vf::run(argc, argv, S);
 }
